@@ -30,7 +30,7 @@ SPEC = dict(
     ],
     rule="one op = one expression (canonical dump of an object built through the public API) printed by the real "
          "StrPrinter and by the model; distinct = distinct op lines; non-trivial = all. Tags: number / number-coef / "
-         "number-base / number-exp / number-arg (integers, multi-limb integers, rationals, Gaussian rationals, doubles, "
+         "integer-boundary (2**63, 2**64, 10**18..10**20 +-2 and random 18-20 digit integers in every operand position), number-base / number-exp / number-arg (integers, multi-limb integers, rationals, Gaussian rationals, doubles, "
          "complex doubles alone and in every operand position), double / double-boundary (bit patterns: random, short "
          "decimals, around powers of ten, 14-17 digit integers, the 1e-5 and 1e15 switches, ties at the 15th digit, "
          "subnormals, largest), arith / arith-float (random trees over the public constructors, depth <= 6), pow / "
